@@ -28,6 +28,7 @@ import os
 import shutil
 import tempfile
 import threading
+import time
 import warnings
 from collections import Counter
 from concurrent.futures import Future
@@ -204,6 +205,15 @@ def show_loaded(f):
     return "ok " + (" ".join(sl.show_chunk(c) for c in chunks) if chunks else "-"), chunks
 
 
+def attempt(msgs, what, f):
+    """run a call of the real code inside the oracle part of an adapter; a failure is a message, never a crash"""
+    try:
+        return f()
+    except Exception as e:  # noqa: BLE001
+        msgs.append(f"{what} failed: {type(e).__name__}: {str(e)[:160]}")
+        return None
+
+
 def meta_msgs(msgs, md, files, dt, dirname, data_type, comp, serial=True, what=""):
     """metadata-versus-files consistency of one directory (c03's oracle), prefixed"""
     sub = []
@@ -296,8 +306,8 @@ def impl_copy(case):
             if chunks is None:
                 msgs.append(f"loading the copy failed: {loaded_s}")
             else:
-                arr = st_b.get_array(RUN, SRC, progress_bar=False)
-                if arr.tobytes() != orig_bytes(case) or bytes_of_chunks(chunks, dt) != orig_bytes(case):
+                arr = attempt(msgs, "get_array of the copy", lambda: st_b.get_array(RUN, SRC, progress_bar=False))
+                if arr is not None and (arr.tobytes() != orig_bytes(case) or bytes_of_chunks(chunks, dt) != orig_bytes(case)):
                     msgs.append("rows loaded from the copy are not bit-identical to the original rows")
                 if not case["rechunk"]:
                     if [(c.start, c.end) for c in chunks] != [(a, b) for a, b, _r in case["layout"]]:
@@ -628,8 +638,8 @@ def impl_merge(case):
                 else:
                     if bytes_of_chunks(chunks, dt) != direct.tobytes():
                         msgs.append("rows of the merged per-chunk results are not bit-identical to the directly made data")
-                    merged_arr = st.get_array(RUN, TGT, progress_bar=False)
-                    if merged_arr.tobytes() != direct.tobytes():
+                    merged_arr = attempt(msgs, "get_array of the merged data", lambda: st.get_array(RUN, TGT, progress_bar=False))
+                    if merged_arr is not None and merged_arr.tobytes() != direct.tobytes():
                         msgs.append("get_array of the merged data differs from the directly made data")
                     lay = case["layout"]
                     if (chunks[0].start, chunks[-1].end) != (lay[0][0], lay[-1][1]):
@@ -728,7 +738,12 @@ OPS = {"copy": op_copy, "rechunk": op_rechunk, "rol": op_rol, "merge": op_merge,
 
 
 def impl(case):
-    return IMPL[case["op"]](case)
+    try:
+        return IMPL[case["op"]](case)
+    except Exception as e:  # noqa: BLE001  (the real code failed somewhere around the operation under test)
+        side = _SIDE.setdefault(case_key(case), {"msgs": []})
+        side.setdefault("msgs", []).append(f"the real code failed while preparing or inspecting the case: {type(e).__name__}: {str(e)[:200]}")
+        return "err-setup " + sl.err_name(e)
 
 
 def to_op(case):
@@ -784,6 +799,7 @@ def compositions(n):
 def run(ctx):
     rng = ctx.rng
     dist = Counter()
+    timing = []
 
     def nontriv(c, o):
         return len(c.get("layout", [0, 0])) >= 2 and sum(len(x[2]) for x in c.get("layout", [])) >= 2
@@ -793,10 +809,12 @@ def run(ctx):
             for k in ("enc", "src_comp", "dst_comp", "style", "proc", "parallel"):
                 if k in c:
                     dist[f"{k}={c[k]}"] += 1
+        t0 = time.time()
         outs, _ = ctx.correspond(name, cases, impl, to_op, oracle, nontrivial=nontrivial, rule=rule, exhaustive=exhaustive, branch=branch,
                                  model_post=model_post, in_hyp=lambda c, o: True)
         for c in cases:
             _SIDE.pop(case_key(c), None)
+        timing.append(f"{name}:{len(cases)}:{time.time() - t0:.0f}s")
         return outs
 
     def n_out(o, k):
@@ -807,7 +825,7 @@ def run(ctx):
 
     # ---- 1. copy_to_frontend
     cases = []
-    for _ in range(ctx.pick(200, 2500)):
+    for _ in range(ctx.pick(160, 800)):
         cases.append(base(rng, "copy", dst_comp=rng.choice(COMPRESSORS + [None]), rechunk=rng.randint(0, 1), rechunk_to=rng.randint(1, 7),
                           proc=rng.choice(["single_thread", "threaded_mailbox"])))
     go("copy/frontend", cases,
@@ -827,26 +845,26 @@ def run(ctx):
     def rech_branch(c, o):
         return f"{c['parallel']}:{c['dest']}:rep{c['replace']}:re{c['rechunk']}:" + ("err" if " e=- " not in o else "ok")
 
-    cases = [rech_case("serial") for _ in range(ctx.pick(160, 2000))]
+    cases = [rech_case("serial") for _ in range(ctx.pick(140, 700))]
     go("rechunker/serial", cases,
        "strax.rechunker in serial mode on the same layouts x compressor (4 + unchanged) x target size (1..7 rows + unchanged) x rechunk on/off x "
        "{new location, new location + replace, in place (temp dir) + replace}: the traced sequence of directory-level operations, the final source / "
        "destination / temp directories and the loaded chunks compared with the model; per-operation source snapshots feed the oracle",
        branch=rech_branch)
-    cases = [rech_case("thread") for _ in range(ctx.pick(60, 700))]
+    cases = [rech_case("thread") for _ in range(ctx.pick(40, 250))]
     go("rechunker/thread", cases, "the same through parallel='thread' (mailbox + ThreadPoolExecutor(2))", branch=rech_branch)
     if ctx.thorough:
-        cases = [rech_case("process") for _ in range(60)]
+        cases = [rech_case("process") for _ in range(16)]
         go("rechunker/process", cases, "the same through parallel='process' (writes happen in worker processes: the operation trace is compared "
            "without the chunk writes)", branch=rech_branch, model_post=strip_writes)
     # destination = the source directory itself (known finding rechunker-dest-is-source)
-    cases = [rech_case("serial", dest=rng.choice(["parent", "self"]), replace=rng.randint(0, 1)) for _ in range(ctx.pick(12, 60))]
+    cases = [rech_case("serial", dest=rng.choice(["parent", "self"]), replace=rng.randint(0, 1)) for _ in range(ctx.pick(12, 40))]
     go("rechunker/dest-is-source", cases,
        "dest_directory = the data directory that holds the source, or the source directory itself, with and without replace", branch=rech_branch)
 
     # ---- 3. rechunk on load
     cases = []
-    for _ in range(ctx.pick(200, 2500)):
+    for _ in range(ctx.pick(160, 800)):
         via = rng.choice(["context", "context", "loader"])
         proc = rng.choice(["single_thread", "threaded_mailbox"]) if via == "context" else "-"
         cases.append(base(rng, "rol", rol=1, source_size=rng.randint(1, 7), via=via, proc=proc,
@@ -859,7 +877,7 @@ def run(ctx):
 
     # ---- 4. per-chunk make + merge
     cases = []
-    n_lay = ctx.pick(12, 140)
+    n_lay = ctx.pick(10, 50)
     for _ in range(n_lay):
         proto = base(rng, "merge", style=rng.choice(["tiny", "empties", "mixed", "giant"]), n_rows=rng.randint(1, 10))
         n = len(proto["layout"])
@@ -882,7 +900,7 @@ def run(ctx):
        branch=lambda c, o: f"{c['proc']}:w{c['workers']}:jobs{min(len(c['sizes']), 4)}:re{c['rechunk']}:" + ("ok" if o.startswith("ok") else o.split(" ")[0]))
     # odd selections: out of order, incomplete, duplicated groups (correspondence only: outside the property's quantifier)
     odd = []
-    for _ in range(ctx.pick(25, 200)):
+    for _ in range(ctx.pick(25, 120)):
         proto = base(rng, "merge", style=rng.choice(["tiny", "mixed"]), n_rows=rng.randint(2, 8))
         n = len(proto["layout"])
         if n < 2:
@@ -918,6 +936,7 @@ def run(ctx):
        branch=lambda c, o: "err" if "Error" in o else "ok", nontrivial=lambda c, o: len(set(o.split(" ")[1:])) >= 3)
 
     ctx.note("input distribution: " + ", ".join(f"{k}:{v}" for k, v in sorted(dist.items())))
+    ctx.note("component:cases:wall " + " ".join(timing))
 
 
 def search(ctx):
